@@ -160,7 +160,7 @@ int main(int argc, char **argv)
                         W.act_queries = strstr(v, "queries") != NULL;
                         W.act_flags = strstr(v, "flags") != NULL;
                 }
-                else if (!strcmp(a, "--gen-mode")) W.gen.mode = !strcmp(ARG(), "free") ? GEN_FREE : GEN_GRAMMAR;
+                else if (!strcmp(a, "--gen-mode")) { const char *v = ARG(); W.gen.mode = !strcmp(v, "free") ? GEN_FREE : !strcmp(v, "none") ? 2 : GEN_GRAMMAR; }
                 else if (!strcmp(a, "--name-alpha")) { memset(W.gen.name_alpha, 0, sizeof W.gen.name_alpha); unescape(ARG(), W.gen.name_alpha, sizeof W.gen.name_alpha - 1); }
                 else if (!strcmp(a, "--args-alpha")) { memset(W.gen.args_alpha, 0, sizeof W.gen.args_alpha); unescape(ARG(), W.gen.args_alpha, sizeof W.gen.args_alpha - 1); }
                 else if (!strcmp(a, "--dev")) W.gen.dev_n = unescape(ARG(), W.gen.dev_alpha, sizeof W.gen.dev_alpha);
@@ -176,6 +176,7 @@ int main(int argc, char **argv)
                 else if (!strcmp(a, "--suffix-mask")) W.gen.suffix_mask = atoi(ARG());
                 else if (!strcmp(a, "--mon")) W.mon = parse_mon(ARG());
                 else if (!strcmp(a, "--line-max")) W.line_max = atoi(ARG());
+                else if (!strcmp(a, "--liveness")) w_liveness = atoi(ARG());
                 else if (!strcmp(a, "--merge-doomed")) W.merge_doomed = atoi(ARG());
                 else if (!strcmp(a, "--wo-fill")) W.wo_fill = atoi(ARG());
                 else if (!strcmp(a, "--var-init")) W.var_init = atoi(ARG());
@@ -210,11 +211,21 @@ int main(int argc, char **argv)
         struct mcx_stats st;
         int nv = mcx_explore(&world_model, &o, &st);
         char vmsg[1024]; snprintf(vmsg, sizeof vmsg, "%s", mcx_violation_msg());
+        long live_max = 0; uint64_t live_nodes = 0;
+        if (!nv && w_liveness) {
+                mcx_hash_t wit;
+                live_max = world_liveness_check(&live_nodes, &wit);
+                long bound = 64 + 16 * (W.ncmd + 1) + 4 * W_FIFO;
+                if (live_max == -1) { nv = 1; snprintf(vmsg, sizeof vmsg, "C15: livelock: the input-exhausted, output-accepting continuation cycles without ever returning OK (state %016llx)", (unsigned long long)wit.a); }
+                else if (live_max == -2 && st.exhaustive) mcx_fatal("liveness: state %016llx has no quiet continuation recorded", (unsigned long long)wit.a);
+                else if (live_max > bound) { nv = 1; snprintf(vmsg, sizeof vmsg, "C15: %ld cat_service calls needed to reach quiescence, linear bound is %ld", live_max, bound); }
+        }
         if (!nv) world_resolve_samples();
         printf("{\"tag\":\"%s\",\"states\":%llu,\"transitions\":%llu,\"max_depth\":%llu,\"revisits\":%llu,\"exhaustive\":%s,\"capped\":%d,\"wall_s\":%.3f,\"violations\":%d,",
                tag, (unsigned long long)st.states, (unsigned long long)st.transitions, (unsigned long long)st.max_depth, (unsigned long long)st.revisits,
                st.exhaustive ? "true" : "false", st.capped, st.wall_s, nv);
         print_ws_json(stdout);
+        if (w_liveness) printf(",\"live_nodes\":%llu,\"live_max_dist\":%ld", (unsigned long long)live_nodes, live_max);
         if (nv) {
                 printf(",\"replay\":\"%s\",\"msg\":\"", mcx_last_replay_path());
                 for (const char *p = vmsg; *p; p++) {
